@@ -7,6 +7,7 @@ package main
 import (
 	"bytes"
 	"compress/flate"
+	"compress/gzip"
 	"encoding/binary"
 	"encoding/json"
 	"errors"
@@ -51,6 +52,8 @@ type wInput struct {
 	Partial    bool   `json:"partial"`      // the failing call accepts part of the data before reporting the error
 	Bam        bool   `json:"bam"`
 	DataSeed   uint64 `json:"data_seed"`
+	ExtraLen   int    `json:"extra_len,omitempty"` // bytes of user Extra in the writer's gzip header: large values make writeBlock fail with ErrBlockOverflow
+	BadName    bool   `json:"bad_name,omitempty"`  // a header Name outside Latin-1: gzip refuses every block
 }
 
 func (in wInput) shape() string {
@@ -416,6 +419,7 @@ type wRun struct {
 	// bam only
 	headerLen    int
 	newWriterErr string
+	realChunks   int // chunks of the script up to its first Close (later Writes are refused with ErrClosed)
 	beforeLib    int
 	afterLib     []string
 }
@@ -495,6 +499,12 @@ func wRunScript(in wInput) *wRun {
 		r.panicked = "NewWriter: " + o.panicVal
 		return r
 	}
+	if in.ExtraLen > 0 {
+		bg.Extra = make([]byte, in.ExtraLen)
+	}
+	if in.BadName {
+		bg.Name = "\u0100"
+	}
 	busy := func() bool { return atomic.LoadInt32(&r.rw.inCall) > 0 }
 	sim := &wSim{}
 	pos := 0
@@ -532,6 +542,7 @@ func wRunScript(in wInput) *wRun {
 		case "c":
 			if !closedOK {
 				sim.submit()
+				r.realChunks = len(sim.chunks)
 			}
 			closedOK = true
 			tok = "c"
@@ -592,6 +603,9 @@ func wRunScript(in wInput) *wRun {
 		}
 	}
 	r.chunks = sim.chunks
+	if !closedOK {
+		r.realChunks = len(sim.chunks)
+	}
 	if r.hang == nil && closedOK {
 		// goroutines of the library must be gone after Close (allow them a moment to unwind)
 		for try := 0; try < 50; try++ {
@@ -616,6 +630,44 @@ func (r *wRun) endsWithEOF(ncalls int) bool {
 		all = append(all, c.p[:c.n]...)
 	}
 	return bytes.HasSuffix(all, wMagic)
+}
+
+// compressFails predicts, with compress/gzip itself, whether compressor.writeBlock refuses this block under the
+// run's header: gzip refuses the header (Name outside Latin-1), or the member is longer than 64 KiB.
+func (r *wRun) compressFails(p []byte) bool {
+	if r.in.BadName {
+		return true
+	}
+	if r.in.ExtraLen == 0 {
+		return false
+	}
+	var buf bytes.Buffer
+	gz, _ := gzip.NewWriterLevel(&buf, gzip.DefaultCompression)
+	gz.Header = gzip.Header{Extra: append([]byte("BC\x02\x00\x00\x00"), make([]byte, r.in.ExtraLen)...), OS: 0xff}
+	if _, err := gz.Write(p); err != nil {
+		return true
+	}
+	if err := gz.Close(); err != nil {
+		return true
+	}
+	return buf.Len()-1 >= 0x10000
+}
+
+// cfaults: the ids of the script's blocks whose compression fails.
+func (r *wRun) cfaults() []int {
+	if r.in.Bam || (r.in.ExtraLen == 0 && !r.in.BadName) {
+		return nil
+	}
+	var out []int
+	for i, ch := range r.chunks {
+		if i >= r.realChunks {
+			break
+		}
+		if r.compressFails(r.data[ch.off : ch.off+ch.n]) {
+			out = append(out, i)
+		}
+	}
+	return out
 }
 
 // labelled event trace for the model: U#i -> U<blk>:<ok>
@@ -923,6 +975,9 @@ func wJudge(c *ctx, r *wRun, d *Driver, impl *[]string, ins *[]wInput) {
 	}
 	if r.hang != nil {
 		kind := "no-fault"
+		if in.ExtraLen > 0 || in.BadName {
+			kind = "after-compress-failure"
+		}
 		if in.FaultAt >= 0 {
 			kind = "after-write-fault"
 		}
@@ -939,7 +994,7 @@ func wJudge(c *ctx, r *wRun, d *Driver, impl *[]string, ins *[]wInput) {
 		if !in.Bam {
 			ev, _, _, _ := r.trace()
 			dd := c.drv()
-			dd.add("c12.trace %d 0 %s %s %s", wcNat(in.WC), faultArg(in), joinOr(r.script), joinOr(ev))
+			dd.add("c12.tracec %d 0 %s %s %s %s", wcNat(in.WC), faultArg(in), intsOr(r.cfaults()), joinOr(r.script), joinOr(ev))
 			if out, err := dd.run(); err == nil && len(out) == 1 {
 				what += "; replay on the LTS of the unchanged protocol: " + out[0]
 			}
@@ -970,6 +1025,12 @@ func wJudge(c *ctx, r *wRun, d *Driver, impl *[]string, ins *[]wInput) {
 		if r.newWriterErr != "" {
 			script = script[:3]
 		}
+	}
+	if cfs := r.cfaults(); !in.Bam && (in.ExtraLen > 0 || in.BadName) {
+		d.add("c12.tracec %d 1 %s %s %s %s", wcNat(in.WC), faultArg(in), intsOr(cfs), joinOr(script), joinOr(ev))
+		*impl = append(*impl, fmt.Sprintf("path out=%s eof=%s done=%s stuck=0 err=%s", intsOr(out), b01(eof), b01(done), b01(anyFail || len(cfs) > 0)))
+		*ins = append(*ins, in)
+		return
 	}
 	d.add("%s %d 1 %s %s %s", cmd, wcNat(in.WC), faultArg(in), joinOr(script), joinOr(ev))
 	*impl = append(*impl, fmt.Sprintf("path out=%s eof=%s done=%s stuck=0 err=%s", intsOr(out), b01(eof), b01(done), b01(anyFail)))
